@@ -117,6 +117,46 @@ pub fn exhaustive_number_alphabet(sink: &mut Sink, thorough: bool) {
     }
 }
 
+fn emit_acc(sink: &mut Sink, cfg: &str, cand: &str, tag: &str) {
+    let lit = cand.to_string();
+    let o = g(|| match lit.parse::<Number>() {
+        Err(_) => "ERR".into(),
+        Ok(n) => format!("{}|{}|{}|{}|{}|{}|{}|{}", opt(n.as_i64()), opt(n.as_u64()), opt(n.as_i128()), opt(n.as_u128()), n.is_i64() as u8, n.is_u64() as u8, n.is_f64() as u8,
+                         n.as_f64().map(|f| format!("{:016x}", f.to_bits())).unwrap_or("N".into())) });
+    let class = if o == "ERR" { "rejected" } else { "accepted" };
+    sink.case("acc", &[cfg, &hexf(cand.as_bytes())], &o, &format!("{}:{}", tag, class), cand.len() > 1);
+}
+
+/// C20 "Number::from_str accepts exactly the RFC 8259 number grammar" beyond the number alphabet (tag `nearmiss`): complete
+/// literals followed by, preceded by, and split by EVERY single byte value 0..=255 (bytes >= 0x80 as the two-byte UTF-8 text of
+/// U+0080..U+00FF: the candidate is a `&str`), a few two- and three-byte tails (NUL bytes, blanks, a second literal), and random
+/// insertions of an arbitrary byte into random number texts. Only strings of the grammar may be accepted (NUL is not the end of
+/// input, whitespace is not skipped).
+pub fn number_near_misses(sink: &mut Sink, thorough: bool, seed: u64) {
+    let mut r = Rng::new(seed ^ 0x20c6);
+    let cfg = cfg_tag();
+    let lits: [&str; 14] = ["0", "-0", "1", "-12", "1.5", "-0.0", "1e5", "1E+05", "2.50e-3", "18446744073709551615", "18446744073709551616", "-9223372036854775809",
+                            "123456789012345678901234567890.123456789012345678901234567890e-1000", "1e400"];
+    for lit in lits.iter() {
+        for b in 0..=255u8 {
+            let c = char::from(b);
+            emit_acc(sink, &cfg, &format!("{}{}", lit, c), "nearmiss-tail");
+            emit_acc(sink, &cfg, &format!("{}{}", c, lit), "nearmiss-head");
+            if lit.len() > 1 { let k = 1 + (b as usize) % (lit.len() - 1); emit_acc(sink, &cfg, &format!("{}{}{}", &lit[..k], c, &lit[k..]), "nearmiss-mid"); }
+        }
+        for tail in ["\0\0", "\u{0}1", "\0 ", " \0", "\0\n", "\0,", "\0]", "\0e5", "\0.5", " 1", ",1", "\n", "\r\n", "\t\0", "e\0", ".\0", "-\0", "\u{0}\u{0}\u{0}", "\u{feff}", "\u{0}x"] {
+            emit_acc(sink, &cfg, &format!("{}{}", lit, tail), "nearmiss-tail2");
+            emit_acc(sink, &cfg, &format!("{}{}", tail, lit), "nearmiss-head2");
+        }
+    }
+    for _ in 0..(if thorough { 20000 } else { 2000 }) {
+        let t = crate::gen::gen_number_text(&mut r);
+        let c = char::from(match r.below(4) { 0 => 0u8, 1 => r.below(0x21) as u8, _ => r.next() as u8 });
+        let k = r.below(t.len() + 1);
+        emit_acc(sink, &cfg, &format!("{}{}{}", &t[..k], c, &t[k..]), "nearmiss-rand");
+    }
+}
+
 pub fn run(sink: &mut Sink, thorough: bool, seed: u64) {
     let mut r = Rng::new(seed);
     let cfg = cfg_tag();
